@@ -292,10 +292,10 @@ JudgeRot(e) ==
     IF e.r = "panic" THEN V("C01", "RateOfTurn panic")
     ELSE LET sv == Signed(e.raw, 8)
          IN  (IF e.v = (IF sv = -128 THEN << >> ELSE <<sv>>) THEN {} ELSE V("C11", "RateOfTurn::parse"))
-             \cup (IF sv = -128 THEN {}
+             \cup (IF sv = -128 \/ ~Has(e, "dir") THEN {}
                    ELSE IF e.dir = (IF sv = 0 THEN << >> ELSE IF sv > 0 THEN <<"Starboard">> ELSE <<"Port">>)
                         THEN {} ELSE V("X", "RateOfTurn::direction"))
-             \cup (IF sv = -128 THEN {}
+             \cup (IF sv = -128 \/ ~Has(e, "rate") THEN {}
                    ELSE IF (e.rate = << >>) = (sv \in {-127, 127}) THEN {} ELSE V("X", "RateOfTurn::rate"))
 
 --------------------------------------------------------------------------
